@@ -1,4 +1,13 @@
-(* Per-run source tie for the small methods of rtcmmessage.RTCMMessage. *)
+(* Per-run source tie for the small methods of rtcmmessage.RTCMMessage: the PyO interpretation (Src/PyO.v) of the CURRENT
+   source text of
+     RTCMMessage.__init__ / __setattr__ / identity / payload / ismsm / _get_dict / _do_unknown / serialize
+   (translated by tools/gen_src2.py into PyRtcmGen.SrcOMsg) equals the hand-written model (Model/Message.v: identity,
+   too_short, get_dict, ismsm_of, serialize_payload, the immutability flag) for ALL tables T, payloads and attribute
+   stores.  The environment (what RTCM_MSGIDS[...], RTCM_PAYLOADS_GET*.get, len2bytes, crc2bytes mean; how the model's
+   outcomes read as interpreter results; the store __init__ hands to _do_attributes) is Src/MsgEnv.v.
+   Each method is first proved in an arbitrary method table whose callees meet their specification (id_spec, set_spec),
+   then for the class as linked (srco_msg_prog).  `_do_attributes` is not translated: the constructor is proved in a
+   table where it is an ARBITRARY method g. *)
 From Coq Require Import ZArith NArith List String Bool Lia.
 From Coq.Strings Require Import Byte.
 From PyRtcm Require Import Base.Bytes Base.Dec Model.Types Model.Crc Model.Message.
@@ -391,10 +400,13 @@ Theorem src_setattr_immutable n v a w :
   run_ "__setattr__" [VStr n; v] a w = (RExc "RTCMMessageError", (a, w)).
 Proof. intro H. at_meth. apply setattr_true. exact H. Qed.
 
+(* (names bound in the class body are excluded: PyO's ESuperSetattr is a plain store, whereas object.__setattr__ refuses
+   to overwrite a property; ESetattrSelf never passes such a name on) *)
 Theorem src_setattr_mutable n v a w :
   lookup Ob "_immutable" a = Some (VBool false) -> v <> VUnbound ->
+  existsb (String.eqb n) srco_msg_reserved = false ->
   run_ "__setattr__" [VStr n; v] a w = (ROk VNone, (setattr Ob n v a, w)).
-Proof. intros H Hv. at_meth. apply setattr_false; assumption. Qed.
+Proof. intros H Hv _. at_meth. apply setattr_false; assumption. Qed.
 
 Corollary src_setattr_stmt_immutable en ev (s s1 s2 : state Ob W) n v :
   eval Ob W ext prog_M en s = (ROk (VStr n), s1) ->
@@ -451,6 +463,17 @@ Theorem src_init_short g p l : too_short p = true ->
   init_ g [VBytes p; VInt l] [] tt = (RExc "RTCMMessageError", ([("_immutable", VBool false); ("_payload", VBytes p)], tt)).
 Proof. intro H. eapply init_short; [apply init_tab_set|apply set_linked|exact H]. Qed.
 
+(* the same two rejections in the model's constructor *)
+Corollary src_init_rejects_as_model g (po:option bytes) l :
+  match po with None => True | Some p => too_short p = true end ->
+  fst (init_ g [match po with None => VNone | Some p => VBytes p end; VInt l] [] tt)
+  = img_of (fun _ => VNone) (construct T po l).
+Proof.
+  destruct po as [p|]; intro H; cbn [construct].
+  - rewrite src_init_short by exact H. rewrite H. reflexivity.
+  - rewrite src_init_none. reflexivity.
+Qed.
+
 (* otherwise g is called once, on init_store p l; its exception propagates; if it returns with the object still
    mutable, the constructor freezes the object and returns None *)
 Theorem src_init_run g p l r a1 w1 : too_short p = false ->
@@ -480,3 +503,34 @@ Proof.
 Qed.
 End Linked.
 
+
+Goal True. idtac "PA:src_identity_eq". Abort.
+Print Assumptions src_identity_eq.
+Goal True. idtac "PA:src_payload_eq". Abort.
+Print Assumptions src_payload_eq.
+Goal True. idtac "PA:src_setattr_immutable". Abort.
+Print Assumptions src_setattr_immutable.
+Goal True. idtac "PA:src_setattr_mutable". Abort.
+Print Assumptions src_setattr_mutable.
+Goal True. idtac "PA:src_setattr_stmt_immutable". Abort.
+Print Assumptions src_setattr_stmt_immutable.
+Goal True. idtac "PA:setattr_stmt_immutable". Abort.
+Print Assumptions setattr_stmt_immutable.
+Goal True. idtac "PA:src_get_dict_eq". Abort.
+Print Assumptions src_get_dict_eq.
+Goal True. idtac "PA:src_ismsm_eq". Abort.
+Print Assumptions src_ismsm_eq.
+Goal True. idtac "PA:src_do_unknown_eq". Abort.
+Print Assumptions src_do_unknown_eq.
+Goal True. idtac "PA:src_serialize_eq". Abort.
+Print Assumptions src_serialize_eq.
+Goal True. idtac "PA:src_init_none". Abort.
+Print Assumptions src_init_none.
+Goal True. idtac "PA:src_init_short". Abort.
+Print Assumptions src_init_short.
+Goal True. idtac "PA:src_init_rejects_as_model". Abort.
+Print Assumptions src_init_rejects_as_model.
+Goal True. idtac "PA:src_init_run". Abort.
+Print Assumptions src_init_run.
+Goal True. idtac "PA:src_init_frozen". Abort.
+Print Assumptions src_init_frozen.
